@@ -389,6 +389,8 @@ func gMatchAck(c *Check) {
 		prR := p.Prove(fi, cs.Instr, []Req{ReqBool(CallSym(getReject, m), false)})
 		c.Result(prR.OK, rule, "MaybeUpdate under !Reject", fnName(cs.Caller), site, "!m.GetReject()", describeProof(prR), prR.Chain...)
 	}
+	// the acknowledging side of a snapshot
+	cSnapshotReply(c, rule+".snap")
 }
 
 var _ = types.Typ
